@@ -228,6 +228,7 @@ def run(chk):
     chk.rule("R5", "tests of a source dtype against concrete types in cast compilation / validation are made on without_const(..) of it")
 
     chk.rule("R3w", "every cast_compiled interpreted over terms on sample casts: a CAST / TRY_CAST of the compiled operand to the SQL type of the node's own target type; the generic one maps strict to CAST and non-strict to TRY_CAST")
+    chk.rule("R7v", "the Cast branch of SqlImpl.compile_col_expr interpreted for operands of every kind (column, literals of several python types, null): the cast is compiled by the back end's compile_cast, never folded or bypassed for an operand kind")
     chk.rule("R6w", "PostgresImpl.cast_compiled(strict=False) interpreted as a whole for every numeric (source, target) pair incl. width-less and Const types: builds an expression")
     chk.rule("R6", "type-level helper functions of the cast compilers are total over the int / float family that reaches them (interpreted from source)")
 
@@ -445,6 +446,19 @@ def _type_helpers(chk, m, valid_pairs):
                        "(a constant operand carries a Const wrapper, `pdt.Int()` has no width in its class name): the cast dies with an internal error at compile time" if bad else "")  # fmt: skip
     chk.floor("R6", "type-level helper call sites interpreted", n_helpers, 2)
     _cast_compiled_total(chk, m, ints, floats)
+
+    # ---- R7v: every Cast node reaches the back end's compile_cast, whatever its operand is (sqlsim)
+    from ..interp import PyRaise as _PR7, SymbolicBranch as _SB7
+    from ..sqlsim import cast_delegation_scenarios
+
+    sqlm = chk.repo.mod("backend.sql")
+    try:
+        res7 = cast_delegation_scenarios(chk.repo, m_types_env(m))
+        for desc_, ok_, detail in res7:
+            chk.ob("R7v", sqlm, sqlm.func("SqlImpl.compile_col_expr"), desc_, ok_, detail)
+        chk.floor("R7v", "cast operands x targets", len(res7), 30)
+    except (AnalysisError, _SB7, KeyError) as e:
+        chk.undecided.append(f"R7v: the Cast branch of SqlImpl.compile_col_expr could not be interpreted ({str(e)[:140]})")
 
 
 def _cast_compiled_targets(chk, m):
